@@ -53,13 +53,28 @@ pub fn quiet_panics() {
 
 /// Diagnostic watchdog for long checks: names (on stderr) any job that has been running for more than `secs`
 /// seconds.  It cannot stop the job; it only tells which input is responsible.
+/// hard limit for a single job (seconds) and the property to report it under: a job that runs this long although every run
+/// in it is step-capped is reported as a violation (with the input) and the check exits 1 — a hung check decides nothing
+static HARD_LIMIT: std::sync::Mutex<Option<(u64, &'static str)>> = std::sync::Mutex::new(None);
+pub fn set_hard_limit(secs: u64, prop: &'static str) { *HARD_LIMIT.lock().unwrap() = Some((secs, prop)); }
+
 pub struct Watch { inner: std::sync::Arc<std::sync::Mutex<std::collections::HashMap<usize, (std::time::Instant, String)>>>, done: std::sync::Arc<std::sync::atomic::AtomicBool> }
 
 impl Watch {
     pub fn new(label: &'static str, secs: u64) -> Watch {
         let inner: std::sync::Arc<std::sync::Mutex<std::collections::HashMap<usize, (std::time::Instant, String)>>> = Default::default();
         let done = std::sync::Arc::new(std::sync::atomic::AtomicBool::new(false));
-        { let inner = inner.clone(); let done = done.clone(); std::thread::spawn(move || { let mut told: std::collections::HashSet<usize> = Default::default(); while !done.load(std::sync::atomic::Ordering::Relaxed) { std::thread::sleep(std::time::Duration::from_secs(5)); for (j, (t, what)) in inner.lock().unwrap().iter() { if t.elapsed().as_secs() > secs && told.insert(*j) { eprintln!("{} slow job {} (>{}s): {}", label, j, secs, what); } } } }); }
+        { let inner = inner.clone(); let done = done.clone(); std::thread::spawn(move || { let mut told: std::collections::HashSet<usize> = Default::default(); while !done.load(std::sync::atomic::Ordering::Relaxed) { std::thread::sleep(std::time::Duration::from_secs(5)); for (j, (t, what)) in inner.lock().unwrap().iter() {
+                if t.elapsed().as_secs() > secs && told.insert(*j) { eprintln!("{} slow job {} (>{}s): {}", label, j, secs, what); }
+                if let Some((hard, prop)) = *HARD_LIMIT.lock().unwrap() { if t.elapsed().as_secs() > hard {
+                    let dir = format!("{}/replays/{}", crate::report::verif_root(), prop); std::fs::create_dir_all(&dir).ok();
+                    let path = format!("{}/stalled-{}.json", dir, j);
+                    std::fs::write(&path, serde_json::to_string_pretty(&serde_json::json!({"property": prop, "signature": format!("{}:job-does-not-finish", prop), "what": format!("a single job ran for more than {} s although every run in it is step-capped", hard), "witness": {"input": what}})).unwrap()).ok();
+                    println!("VIOLATION property={} replay={}", prop, path);
+                    println!("  signature={}:job-does-not-finish :: a job ran for more than {} s (input in the replay file)", prop, hard);
+                    std::process::exit(1);
+                } }
+            } } }); }
         Watch { inner, done }
     }
     pub fn enter(&self, j: usize, what: &str) { self.inner.lock().unwrap().insert(j, (std::time::Instant::now(), what.to_string())); }
